@@ -232,6 +232,18 @@ StrMatches = _mk_str("str_matches", "pattern", lambda x, p: PL.rx("match", p, x)
 StrContains = _mk_str("str_contains", "pattern", lambda x, p: PL.rx("search", p, x))
 
 
+def install_set_model(I):
+    """set(series.unique()) == values  : set equality by extensionality"""
+    import builtins
+
+    def set_model(I, v=()):
+        if isinstance(v, SymSet):
+            return SetEqWrap(v)
+        return set(I.concrete_iter(v))
+
+    I.models[id(builtins.set)] = set_model
+
+
 class UniqueValuesEq(_Leaf):
     """unique_values_eq: passes iff the set of (non-null) values equals `values` (a set: the Check
     constructor passes a frozenset - that call-site precondition is checked structurally below)."""
@@ -241,15 +253,7 @@ class UniqueValuesEq(_Leaf):
 
     def setup(self, I):
         super().setup(I)
-        # set(series.unique()) == values  : set equality by extensionality
-        import builtins
-
-        def set_model(I, v=()):
-            if isinstance(v, SymSet):
-                return SetEqWrap(v)
-            return set(I.concrete_iter(v))
-
-        I.models[id(builtins.set)] = set_model
+        install_set_model(I)
 
     def ensures(self, result, old, data, values):
         x = core.sym_real("elem")
@@ -260,7 +264,9 @@ class UniqueValuesEq(_Leaf):
         from pyvc.core import SNum
 
         full = SBool(z3.ForAll([xb], core.as_z3_bool(Iff(uniq.member(SNum(xb)), values.member(SNum(xb))))))
-        return {"set_equality": Iff(result, full)}
+        # (a missing cell makes NaN an element of the unique values, which no requested value equals; under ignore_na the check
+        # back end drops the missing cells before the check sees them: PandasCheckBackend.preprocess)
+        return {"set_equality": Iff(result, And(full, Not(uniq.has_null)))}
 
 
 class SetEqWrap:
@@ -275,7 +281,9 @@ class SetEqWrap:
             xb = z3.Real(cur().fresh_name("xs"))
             from pyvc.core import SNum
 
-            return SBool(z3.ForAll([xb], core.as_z3_bool(Iff(self.s.member(SNum(xb)), o.member(SNum(xb))))))
+            same = SBool(z3.ForAll([xb], core.as_z3_bool(Iff(self.s.member(SNum(xb)), o.member(SNum(xb))))))
+            # the missing value is an element like any other: both sets hold it or neither does
+            return And(same, Iff(getattr(self.s, "has_null", False), getattr(o, "has_null", False)))
         return False
 
     __hash__ = object.__hash__
